@@ -10,6 +10,7 @@ import CfbVerif.Phys.NoShareMini
 import CfbVerif.Phys.NoLeak
 import CfbVerif.Phys.NoLeakMini
 import CfbVerif.Phys.Marks
+import CfbVerif.Phys.ChainLen
 /-!
 # C03 — every produced image is a well-formed MS-CFB file by an independent checker
 
@@ -289,6 +290,33 @@ theorem C03_partition (v4 : Bool) (ops : List GOp) :
   · exact Or.inr (Or.inl ⟨rfl, (m.fatMark x).mp hx⟩)
   · exact Or.inr (Or.inr (Or.inl ⟨rfl, (m.difMark x).mp hx⟩))
 
+/-- **each stream's chain length matches its size**: after every history of stream-level
+operations in which writes start at or before the end of their stream (which is what a stream
+handle does), every stream of at least 4096 bytes has a start sector, the chain walk from it
+succeeds, and it returns exactly `⌈length / sector size⌉` sectors -/
+theorem C03_chain_length_matches_size (v4 : Bool) (ops : List GOp) :
+    let g0 : G := { p := Phys.create v4, L := fun _ => 0 }
+    let g := grun g0 ops
+    WritesInRange g0 ops → g.p.fat.size ≤ MAXREG + 1 →
+    ∀ slot start : Nat, (slot, start) ∈ g.p.starts → CUTOFF ≤ g.L slot →
+      start ≠ END ∧ ∃ l, chainIds g.p start = .ok l ∧ l.length = (g.L slot + g.p.S - 1) / g.p.S := by
+  intro g0 g hw hb slot start hm hc
+  have j := regLen_reachable v4 ops hw hb
+  obtain ⟨hne, l, cl, hl⟩ := j.rl (slot, start) hm hc
+  refine ⟨hne, l, chainFrom_of_isChain j.jc.nc.ns (h := start) ?_ cl, hl⟩
+  refine List.mem_append_right _ ?_
+  unfold regs
+  refine List.mem_map.mpr ⟨(slot, start), List.mem_filter.mpr ⟨hm, ?_⟩, rfl⟩
+  have hne' : start ≠ END := hne
+  show (decide (CUTOFF ≤ g.L slot) && (start != END)) = true
+  simp [hc, hne']
+
+/-- **every sector of the file is a whole sector**, after every history of API calls -/
+theorem C03_sectors_whole (v4 : Bool) (maxBuf : Nat) (ops : List Dir.HOp) :
+    let p := (prun (PState.create v4 maxBuf) ops).p
+    ∀ (i : Nat) (sec : ByteArray), p.sectors[i]? = some sec → sec.size = p.S :=
+  ss_reachable v4 maxBuf ops
+
 /-- the hypotheses are met by a history that creates three streams (regular, regular, mini), frees
 one and reuses its sectors: heads are the directory (1), the mini stream (10), the MiniFAT (11) and
 stream 2 (12) -/
@@ -301,5 +329,15 @@ example : mregs (grun { p := Phys.create false, L := fun _ => 0 } exOps).p.start
     (grun { p := Phys.create false, L := fun _ => 0 } exOps).L = [0] := by decide
 example : heads (grun { p := Phys.create false, L := fun _ => 0 } exOps).p
     (grun { p := Phys.create false, L := fun _ => 0 } exOps).L = [1, 11, 10, 12] := by decide
+
+/-- a history with writes: one appends to a regular stream across a sector boundary, one takes a
+mini stream over the cutoff (migration) -/
+def exOps2 : List GOp :=
+  exOps ++ [.write 2 9000 (List.replicate 300 7), .write 3 60 (List.replicate 4100 5)]
+
+example : WritesInRange { p := Phys.create false, L := fun _ => 0 } exOps2 := writesInRange_of_B _ _ (by decide +kernel)
+example : (grun { p := Phys.create false, L := fun _ => 0 } exOps2).p.fat.size ≤ MAXREG + 1 := by decide +kernel
+example : (grun { p := Phys.create false, L := fun _ => 0 } exOps2).L 2 = 9300 ∧
+    (grun { p := Phys.create false, L := fun _ => 0 } exOps2).L 3 = 4160 := by decide +kernel
 
 end CfbVerif.Props.C03
